@@ -870,10 +870,63 @@ def build_class(world, modname, cs):
             d['layer'] = get_layer(world, cs['layer'])
     if cs.get('level') is not None:
         d['level'] = cs['level']
+    for hook, beh in sorted((cs.get('fixture') or {}).items()):
+        d[hook] = _class_fixture(hook, beh)
     cls = type(cs['name'], (unittest.TestCase,), d)
     if cs.get('class_skip'):
         cls = unittest.skip('class skipped')(cls)
     return cls
+
+
+def _class_fixture(hook, beh):
+    """setUpClass / tearDownClass of a generated class.  They only run when
+    the class is run through the stdlib suite machinery (UnitEntry): the
+    runner itself calls every test case on its own."""
+    def fn(cls):
+        emit('class.' + hook, cls='%s.%s' % (cls.__module__, cls.__name__),
+             out_is_orig=(sys.stdout is ORIG_STDOUT)
+             if ORIG_STDOUT is not None else None,
+             err_is_orig=(sys.stderr is ORIG_STDERR)
+             if ORIG_STDERR is not None else None)
+        if beh == 'skip':
+            raise unittest.SkipTest('%s of %s skips' % (hook, cls.__name__))
+        if beh.startswith('raise:'):
+            raise make_exc(beh[6:], '%s of %s' % (hook, cls.__name__))
+    fn.__name__ = hook
+    return classmethod(fn)
+
+
+class UnitEntry:
+    """A test entry that is not a unittest.TestSuite (so the runner does not
+    flatten it) and runs the tests of one class as a unit through the stdlib
+    suite machinery - what a 'keep the class fixtures working' wrapper or a
+    third-party suite type does.  Class level fixture outcomes reach the
+    result as addSkip / addError for an _ErrorHolder *without* startTest /
+    stopTest around them."""
+
+    def __init__(self, cls):
+        self._cls = cls
+        self._suite = unittest.TestLoader().loadTestsFromTestCase(cls)
+
+    def countTestCases(self):
+        return self._suite.countTestCases()
+
+    def __call__(self, result):
+        return self._suite.run(result)
+
+    run = __call__
+
+    def id(self):
+        return '%s.%s' % (self._cls.__module__, self._cls.__name__)
+
+    def shortDescription(self):
+        return None
+
+    def __str__(self):
+        return 'unit (%s)' % self.id()
+
+    def __repr__(self):
+        return '<UnitEntry %s>' % self.id()
 
 
 def _param_str(self):
@@ -904,6 +957,17 @@ def build_node(world, modname, node, ns):
             return suite
         suite = loader.loadTestsFromTestCase(cls)
         return suite
+    if node['t'] == 'unit':
+        cls = ns.get(node['name'])
+        if cls is None:
+            cls = build_class(world, modname, node)
+            ns[node['name']] = cls
+        entry = UnitEntry(cls)
+        if node.get('layer') is not None:
+            entry.layer = get_layer(world, node['layer'])
+        if node.get('level') is not None:
+            entry.level = node['level']
+        return entry
     if node['t'] == 'doctest':
         # docstring examples of generated functions of this module
         import doctest
@@ -994,7 +1058,7 @@ def build_module(modname, filename=None):
 
 
 def _prebuild(world, modname, node, ns):
-    if node['t'] == 'class':
+    if node['t'] in ('class', 'unit'):
         if node['name'] not in ns:
             ns[node['name']] = build_class(world, modname, node)
     elif node['t'] == 'suite':
